@@ -1,3 +1,3 @@
-import DosModel.Model.Util
--- stub: no model driver for this property yet
-def main : IO Unit := Dos.lineLoop (fun _ => "unimplemented")
+import DosModel.Model.P2PSym
+import DosModel.Gen.P2PFlow
+def main : IO Unit := Dos.lineLoop (Dos.P2PSym.driverStep Dos.Gen.decodeChecksAnything)
